@@ -134,8 +134,8 @@ def r1_r2(ctx):
         r2.check(bool(edges) and not any(o in r for o in oks), "Packet::decode: Ok only past the %s check" % name, "decode|%s" % name,
                  "Packet::decode can accept a datagram with %s" % msg, loc=b.loc(b.line))
     for bi, t in kd:
-        a0, a1 = fmt_short(p.operand(t.args[0])), fmt_short(p.operand(t.args[1]))
-        r2.check("8" in a0 and "Range" in fmt(p.operand(t.args[1])), "PacketKind::decode(flag byte 8 of the header, unmasked auth-data)", "decode|kind-args",
+        a0, a1 = fmt_short(canon(p.operand(t.args[0]))), fmt_short(canon(p.operand(t.args[1])))
+        r2.check("8" in a0 and "Range" in fmt(canon(p.operand(t.args[1]))), "PacketKind::decode(flag byte 8 of the header, unmasked auth-data)", "decode|kind-args",
                  "PacketKind::decode is given (%s, %s)" % (a0, a1), loc=b.loc(t.line))
     # PacketKind::decode
     kb = facts.one(re.escape(P + "PacketKind::decode"))
@@ -296,25 +296,25 @@ def r3(ctx):
             use = None
             for sbi, st, se in a.guards.switches():
                 cc = comparison(se)
-                if cc and any(x[0] == "call" and x[3] == dest_key for side in (cc[1], cc[2]) for x in walk(side)):
+                if cc and any(x[0] == "call" and x[3] == dest_key for side in (cc[1], cc[2]) for x in walk(canon(side))):
                     other = fmt_short(cc[2]) + fmt_short(cc[1])
                     if "protocol_identity.protocol_id" in other.replace("protocol_identity.protocol_version", ""):
                         use = "protocol_id"
                     elif "protocol_version" in other:
                         use = "protocol_version"
             for cbi, ct in b.calls():
-                if (ct.callee() or "") == P + "PacketKind::decode" and any(x[0] == "call" and x[3] == dest_key for x in walk(p.operand(ct.args[0]))):
+                if (ct.callee() or "") == P + "PacketKind::decode" and any(x[0] == "call" and x[3] == dest_key for x in walk(canon(p.operand(ct.args[0])))):
                     use = "kind"
             for blk in b.blocks:
                 for s in blk.stmts:
                     if s.k == "a" and s.rv.k == "agg" and s.rv.j.get("def") == P + "PacketHeader":
                         fd = dict(zip(s.rv.j["fields"], [p.operand(o) for o in s.rv.ops]))
-                        if any(x[0] == "call" and x[3] == dest_key for x in walk(fd["message_nonce"])):
+                        if any(x[0] == "call" and x[3] == dest_key for x in walk(canon(fd["message_nonce"]))):
                             use = "message_nonce"
             for sbi, st, se in a.guards.switches():
                 cc = comparison(se)
-                if cc and "from_be_bytes" in fmt_short(cc[1]) + fmt_short(cc[2]):
-                    if any(x[0] == "call" and x[3] == dest_key for side in (cc[1], cc[2]) for x in walk(side)):
+                if cc and "from_be_bytes" in fmt_short(canon(cc[1])) + fmt_short(canon(cc[2])):
+                    if any(x[0] == "call" and x[3] == dest_key for side in (cc[1], cc[2]) for x in walk(canon(side))):
                         use = use or "auth_data_size"
             if use:
                 rl.setdefault(use, set()).add((lo, hi))
